@@ -48,3 +48,12 @@ def requiredSetOk (op : DeriveOp) (c : ClassDef) (got : List String) : Bool :=
   && ((c.required ++ c.fieldNames).filter (specRequires op c)).all got.contains
 
 end Typedpy
+
+namespace Typedpy
+
+/-- documented field set of a composition of operators (each applied to the previous result) -/
+def specHasFieldMany : List DeriveOp → List String → String → Bool
+  | [], fs, n => fs.contains n
+  | op :: rest, fs, n => specHasFieldMany rest (fs.filter (specHasField op fs)) n
+
+end Typedpy
